@@ -58,7 +58,7 @@ BODIES = ['valid', 'empty', 'baddigit', 'badb64', 'deepjson', 'p17', 'p1000',
           'oversize']
 TRANSP = ['polling', 'websocket', 'foo']
 JP = [None, '0', 'abc']
-SRV = ['T', 'A']
+SRV = ['T', 'A', 'H']      # H: the asyncio server behind the real aiohttp adapter
 API = ['send', 'disconnect-sid', 'disconnect-all', 'send-burst']
 API_STATES = ['none'] + STATES[1:]
 PI, PT = 25, 20
@@ -167,7 +167,7 @@ def run_req(rec, case):
             kwargs['body'] = body
             if declared == 'missing':
                 kwargs['env_override'] = {'CONTENT_LENGTH': None}
-                if srv == 'A':
+                if srv != 'T':
                     kwargs.pop('env_override')
                     kwargs['headers'] = {'content-length': None}
             elif declared is not None:
@@ -733,24 +733,24 @@ def dispatch(rec, case):
 
 def plan(tier, seed):
     rng = gen.mkrng('c15', seed)
-    dims = [len(METHODS), len(STATES), len(BODIES), len(TRANSP), len(JP), 2]
+    dims = [len(METHODS), len(STATES), len(BODIES), len(TRANSP), len(JP), 3]
     allc = [list(c) for c in itertools.product(*[range(n) for n in dims])]
     # bodies only matter for POST/PUT: keep body 0 for the other methods
     allc = [c for c in allc if METHODS[c[0]] in ('POST', 'PUT') or c[2] == 0]
     if tier == 'thorough':
         chosen = allc
     else:
-        chosen = rng.sample(allc, 1400)
+        chosen = rng.sample(allc, 2000)
     cases = [{'cell': c} for c in chosen]
     for call in API:
         for st in API_STATES:
             for srv in SRV:
                 cases.append({'api': [call, st, srv]})
-    for srv in SRV:
+    for srv in SRV[:2]:
         for call in ('sid', 'all'):
             for when in ('before', 'during'):
                 cases.append({'slowdisc': [srv, call, when]})
-    for srv in SRV:
+    for srv in SRV[:2]:
         for b_when in ('before-probe', 'after-probe'):
             for b_act in ('wrong-first', 'close', 'probe-then-wrong',
                           'probe-then-close'):
